@@ -69,6 +69,8 @@ type phRun struct {
 	logs      *observer.ObservedLogs
 	seenOwn   int
 	reqFree int                    // free slots of the outbound re-observation request queue before the current step
+	store   *db.Database
+	stopRun func()
 	down    bool                   // the store was closed by a StoreDown step
 	lastDB  map[string]interface{} // last projection of the store while it answered
 	ownDB   *db.Database
@@ -512,6 +514,21 @@ func (r *phRun) step(st vhStep) {
 	case "CleanupTick":
 		call = func() { p.handleCleanup(ctx) }
 		send = func() bool { return r.deliver(func(d <-chan time.Time) bool { select { case r.tickC <- time.Now(): return true; case <-d: return false } }) }
+	case "Restart":
+		// the process dies and comes back: new Processor, same store; in-flight own observations are gone
+		if r.stopRun != nil {
+			r.stopRun()
+		}
+		for k := range r.loop {
+			delete(r.loop, k)
+		}
+		for len(r.obsvC) > 0 {
+			<-r.obsvC
+		}
+		r.start()
+		r.drain(false)
+		r.w.trace.Emit(r.sc, "Restart", st.A, r.projState([]interface{}{map[string]interface{}{"kind": "restart"}}, ""))
+		return
 	case "StoreDown":
 		if r.ownDB == nil {
 			r.w.t.Fatalf("StoreDown in a scenario that does not own its store")
@@ -653,13 +670,53 @@ func phReqCap(sc vhScenario) int {
 	return 8192
 }
 
+
+// start creates the Processor (a fresh one after a Restart step, on the same store) and, in run-loop mode, its Run goroutine.
+func (r *phRun) start() {
+	w := r.w
+	gst := common.NewGuardianSetState(nil)
+	r.p = NewProcessor(w.ctx, r.store, r.lockC, r.setC, r.sendC, r.obsvC, r.reqC, r.injectC, r.signedInC,
+		&ecdsasigner.ECDSAPrivateKey{Value: w.keys.Key(w.self)}, gst,
+		reporter.EventListener(zap.NewNop()), nil, phGovChain, phGovEmitter)
+	if r.loopMode {
+		core, logs := observer.New(zap.InfoLevel)
+		r.logs = logs
+		r.p.logger = zap.New(core)
+		ctx, cancel := context.WithCancel(w.ctx)
+		dead := make(chan string, 1)
+		r.runDead = dead
+		p := r.p
+		go func() {
+			defer func() {
+				if x := recover(); x != nil {
+					dead <- fmt.Sprintf("%v\n%s", x, debug.Stack())
+				}
+			}()
+			err := p.Run(ctx)
+			dead <- fmt.Sprintf("Run returned: %v", err)
+		}()
+		r.stopRun = func() {
+			cancel()
+			select {
+			case <-dead:
+			case <-time.After(5 * time.Second):
+			}
+			r.stopRun = nil
+		}
+		// Run creates its 30-s ticker first; once it is in its loop, put a ticker the harness controls in its place
+		if r.sync() {
+			r.p.cleanup = &time.Ticker{C: r.tickC}
+			r.sync()
+		}
+	}
+}
+
 func (w *phWorld) runScenario(sc vhScenario) {
 	r := &phRun{w: w, sc: sc.ID,
 		sendC: make(chan []byte, 8192), obsvC: make(chan *gossipv1.SignedObservation, 8192),
 		reqC:    make(chan *gossipv1.ObservationRequest, phReqCap(sc)),
 		digests: map[string]string{}, ids: map[string]string{}, idVals: map[string]vaa.VAAID{}, txs: map[string]string{},
 		loop: map[string][]*gossipv1.SignedObservation{}, signed: map[string][]byte{}, bodies: map[string]*vhVAA{}}
-	gst := common.NewGuardianSetState(nil)
 	store := w.db
 	for _, st := range sc.Steps {
 		if st.Ev == "StoreDown" { // fault scenarios get a store of their own
@@ -686,30 +743,13 @@ func (w *phWorld) runScenario(sc vhScenario) {
 		r.tickC = make(chan time.Time)
 		r.runDead = make(chan string, 1)
 	}
-	r.p = NewProcessor(w.ctx, store, r.lockC, r.setC, r.sendC, r.obsvC, r.reqC, r.injectC, r.signedInC,
-		&ecdsasigner.ECDSAPrivateKey{Value: w.keys.Key(w.self)}, gst,
-		reporter.EventListener(zap.NewNop()), nil, phGovChain, phGovEmitter)
-	if r.loopMode {
-		core, logs := observer.New(zap.InfoLevel)
-		r.logs = logs
-		r.p.logger = zap.New(core)
-		ctx, cancel := context.WithCancel(w.ctx)
-		defer cancel()
-		go func() {
-			defer func() {
-				if x := recover(); x != nil {
-					r.runDead <- fmt.Sprintf("%v\n%s", x, debug.Stack())
-				}
-			}()
-			err := r.p.Run(ctx)
-			r.runDead <- fmt.Sprintf("Run returned: %v", err)
-		}()
-		// Run creates its 30-s ticker first; once it is in its loop, put a ticker the harness controls in its place
-		if r.sync() {
-			r.p.cleanup = &time.Ticker{C: r.tickC}
-			r.sync()
+	r.store = store
+	r.start()
+	defer func() {
+		if r.stopRun != nil {
+			r.stopRun()
 		}
-	}
+	}()
 	w.trace.Emit(sc.ID, "Reset", map[string]interface{}{"self": w.self}, nil)
 	names := make([]string, 0, len(sc.Bodies))
 	for d := range sc.Bodies {
